@@ -210,18 +210,26 @@ def _unit_lm(ctx):
                 break
         elif reason:
             u.report(inp, str(out), str(mexp), "implementation AND model: " + reason)
-    # natural breaks: implementation-only tiling predicate; the known witness is reported under its own signature
-    n_nb = n_bad = 0
+    # natural breaks (theorem C19_natural_breaks_split_tiles_parent; the goodness-of-split floats are not modelled):
+    # whenever the real splitter splits, it must produce two children tiling the parent
+    n_nb = n_split = n_bad = 0
     for n in range(2, 6):
         for w in itertools.product((0, 1, 3), repeat=n):
             if sum(w) == 0:
                 continue
             out = nb_run(list(w), 0.4)
             n_nb += 1
-            if tiling_reason(100, 2, n, 1, out):
+            reason = tiling_reason(100, 2, n, 1, out)
+            if isinstance(out, tuple) and out[0]:
+                n_split += 1
+                if reason is None and len(out[1]) != 2:
+                    reason = "%d children from one natural-breaks split" % len(out[1])
+            if reason and n_bad < 3:
                 n_bad += 1
+                ctx.violation(u.name, "NaturalBreaksSplitter: " + reason + " %s" % (out,),
+                              {"input": {"w": list(w), "threshold": 0.4, "t": 100, "dt": 2, "orig_dt": 1}})
     u.dist["natural_breaks_runs"] = n_nb
-    u.dist["natural_breaks_last_sample_dropped"] = n_bad
+    u.dist["natural_breaks_splits"] = n_split
     wt = NB_WITNESS
     out = nb_run(wt["w"], wt["threshold"], wt["t"], wt["dt"], wt["orig_dt"])
     reason = tiling_reason(wt["t"], wt["dt"], len(wt["w"]), wt["orig_dt"], out)
